@@ -80,8 +80,8 @@ Lemma full_key_parts s k : full_key s k ->
   all_set (k_p k) = true /\ all_set (k_c k) = true /\ wf_vals (s_pk s) (k_p k) /\ wf_vals (s_cc s) (k_c k)
   /\ wf (k_v k) /\ (s_var s = false -> k_v k = []).
 Proof.
-  intros [V (W1 & W2 & W3 & W4)]. unfold validate_key in V.
-  apply andb_prop in V. destruct V as [V1 V2]. apply andb_prop in V2. destruct V2 as [V2 _]. auto 10.
+  intros [V (W1 & W2 & W3 & W4)]. unfold validate_key, key_shape_ok in V.
+  apply andb_prop in V. destruct V as [_ V]. apply andb_prop in V. destruct V as [V1 V2]. apply andb_prop in V2. destruct V2 as [V2 _]. auto 10.
 Qed.
 
 Lemma enc_fields_wf ks vs : wf (enc_fields ks vs).
@@ -281,7 +281,7 @@ Qed.
 Lemma partial_parts s q : validate_key s true q = true ->
   all_set (k_p q) = true /\ prefix_set (k_c q) = true /\ (all_set (k_c q) = false -> k_v q = []).
 Proof.
-  unfold validate_key. intros V. apply andb_prop in V. destruct V as [V1 V2].
+  unfold validate_key, key_shape_ok. intros V. apply andb_prop in V. destruct V as [_ V]. apply andb_prop in V. destruct V as [V1 V2].
   apply andb_prop in V2. destruct V2 as [V2 V3]. repeat split; auto.
   intros A. rewrite A in V3. cbn in V3. destruct (k_v q); [reflexivity|discriminate].
 Qed.
@@ -632,4 +632,44 @@ Qed.
 Theorem ascending_rows_NoDup s rows : ascending (map (fun r => enc_ccols s (key_of_row r)) rows) -> NoDup rows.
 Proof.
   intros A. apply ascending_NoDup in A. eapply NoDup_map_inv. exact A.
+Qed.
+
+(* ---------- constraints on the trailing column, batch reads ---------- *)
+
+Lemma constraint_ok_nomin s k : s_vmin s = 0 -> constraint_ok s k = true.
+Proof. intros E. unfold constraint_ok. rewrite E. destruct (N.of_nat (length (k_v k))); cbn; apply orb_true_r. Qed.
+
+(* the partial-read theorem with the two parts of the key check kept apart: the shape is what the
+   property asks of a partial key, the constraint is what the code asks in addition *)
+Theorem partial_read_exact_shape keeps nk views (st : vstore) s ws q :
+  reg_ok views -> typed views st -> parts_sorted st -> In s views -> ws < 2 ^ 64 ->
+  key_shape_ok s true q = true -> wf_key s q ->
+  constraint_ok s q = true ->
+  (keeps = false \/ ends_ff (k_v q) = false) ->
+  (nk = false \/ raw_lookup st (enc_pkey s ws q) [0] = None) ->
+  exists rows, view_read keeps nk st s ws q = (0, rows) /\
+    (forall r, In r rows <->
+       exists k, full_key s k /\ k_p k = k_p q /\ key_matches q k = true
+                 /\ stored st s ws k (r_n r) /\ r = row_of k (r_n r)) /\
+    ascending (map (fun r => enc_ccols s (key_of_row r)) rows).
+Proof.
+  intros R T S I W V K C Hf Hn. apply (partial_read_exact_gen keeps nk views); auto. unfold validate_key. rewrite C, V. reflexivity.
+Qed.
+
+(* a batch get is the list of the single gets, for any number of keys, partitions and repetitions *)
+Theorem batch_get_is_pointwise_proved (st : vstore) ws items res :
+  view_get_batch st ws items = Some res ->
+  length res = length items /\
+  forall i s k, nth_error items i = Some (s, k) -> nth_error res i = Some (view_get st s ws k).
+Proof.
+  unfold view_get_batch. destruct (forallb _ items); [|discriminate]. intros E. inversion E; subst. clear E.
+  split; [apply map_length|]. intros i s k H. rewrite nth_error_map, H. reflexivity.
+Qed.
+
+Theorem batch_get_accepts_proved (st : vstore) ws items :
+  Forall (fun it => validate_key (fst it) false (snd it) = true) items ->
+  view_get_batch st ws items = Some (map (fun it => view_get st (fst it) ws (snd it)) items).
+Proof.
+  intros H. unfold view_get_batch. rewrite (proj2 (forallb_forall _ items)); [reflexivity|].
+  rewrite Forall_forall in H. exact H.
 Qed.
